@@ -123,6 +123,57 @@ theorem invA_frame {s s' : State} {t : Tid} (r0 : Ref) (hI : InvA s)
       exact tinvA_frame _ e hnHeap hheap (fun r a b => (hmap r a b).2) hG hI.ent (hI.thr t' (hnThr ▸ ht'))
   · exact hP
 
+/-- the entry-local part of `EInvA` (everything but the two clauses that mention threads) -/
+structure EInvL (s : State) (r : Ref) : Prop where
+  loading_iff : (s.heap r).st = .loading ↔ (s.heap r).value = none
+  err_loading : (s.heap r).loadErr = true → (s.heap r).st = .loading ∧ ¬ Entry.inMapOf s r
+  done_val : (s.heap r).loadDone = true → (s.heap r).loadErr = true ∨ (s.heap r).value ≠ none
+  closing_open : (s.heap r).st = .closing ↔ (s.heap r).chOpen = true
+  closing_closer : (s.heap r).st = .closing ↔ (s.heap r).closer ≠ none
+  pending_loading : (s.heap r).pending ≠ none →
+    (s.heap r).st = .loading ∧ (s.heap r).loadDone = false ∧ (s.heap r).loadErr = false
+  live_inmap : (s.heap r).st = .active ∨ (s.heap r).st = .closing → Entry.inMapOf s r
+  closed_notin : (s.heap r).st = .closed → ¬ Entry.inMapOf s r
+
+/-- `invA_frame` with the thread-mentioning clauses of the rewritten entry split off: the closer /
+loader of `r0` is either the stepping thread (whose new pc is explicit) or unchanged -/
+theorem invA_frame' {s s' : State} {t : Tid} (r0 : Ref) (hI : InvA s) (ht : t < s.nThr)
+    (hnThr : s'.nThr = s.nThr)
+    (hnHeap : s.nHeap ≤ s'.nHeap) (hnew : ∀ r, r < s'.nHeap → r < s.nHeap ∨ r = r0)
+    (hthr : ∀ t', t' ≠ t → s'.thr t' = s.thr t')
+    (hheap : ∀ r, r ≠ r0 → s'.heap r = s.heap r)
+    (hmap : ∀ r, r ≠ r0 → r < s.nHeap → (Entry.inMapOf s' r ↔ Entry.inMapOf s r))
+    (hmapok : ∀ id r, s'.map id = some r → r < s'.nHeap ∧ (s'.heap r).id = id)
+    (hG : r0 < s.nHeap → Guar s s' t r0)
+    (hE0 : r0 < s'.nHeap → EInvL s' r0)
+    (hE0c : r0 < s'.nHeap → ∀ t2, (s'.heap r0).closer = some t2 →
+      (t2 = t ∧ (s'.thr t).pc.closerOf = some r0) ∨
+      (t2 ≠ t ∧ r0 < s.nHeap ∧ (s.heap r0).closer = some t2))
+    (hE0l : r0 < s'.nHeap → (s'.heap r0).loadDone = false →
+      ((s'.heap r0).loader = some t ∧ (s'.thr t).pc.loaderOf = some r0) ∨
+      (r0 < s.nHeap ∧ (s.heap r0).loadDone = false ∧ (s'.heap r0).loader = (s.heap r0).loader ∧
+        (s.heap r0).loader ≠ some t))
+    (hT : TInvA s' t (s'.thr t))
+    (hown : ∀ r, r ≠ r0 → ((s.thr t).pc.loaderOf = some r → (s'.thr t).pc.loaderOf = some r) ∧
+      ((s.thr t).pc.closerOf = some r → (s'.thr t).pc.closerOf = some r))
+    (hP : s'.panicked = false) : InvA s' := by
+  apply invA_frame r0 hI hnThr hnHeap hnew hthr hheap hmap hmapok hG ?_ hT hown hP
+  intro hr
+  have l := hE0 hr
+  refine ⟨l.loading_iff, l.err_loading, l.done_val, l.closing_open, l.closing_closer, l.pending_loading,
+    l.live_inmap, l.closed_notin, ?_, ?_⟩
+  · intro t2 h2
+    rcases hE0c hr t2 h2 with ⟨e, hc⟩ | ⟨e, hr0, hc⟩
+    · subst e; exact ⟨hnThr ▸ ht, hc⟩
+    · have := (hI.ent r0 hr0).closer_thr t2 hc
+      exact ⟨hnThr ▸ this.1, by rw [hthr t2 e]; exact this.2⟩
+  · intro hd
+    rcases hE0l hr hd with ⟨hl, hc⟩ | ⟨hr0, hd0, hl, hne⟩
+    · exact ⟨t, hl, hnThr ▸ ht, hc⟩
+    · obtain ⟨t2, a, b, c⟩ := (hI.ent r0 hr0).loader_thr hd0
+      have e : t2 ≠ t := by intro e; subst e; exact hne a
+      exact ⟨t2, hl ▸ a, hnThr ▸ b, by rw [hthr t2 e]; exact c⟩
+
 attribute [local simp] upd State.setThr State.setE State.setI State.goto State.finish State.panic
 
 theorem markStarted_op (s : State) (th : Thread) : (markStarted s th).op = th.op := by
